@@ -237,6 +237,16 @@ def gen_cli_program(rng, idx):
         e = expr(rng.randrange(0, 3))
         hdr = "//go:build %s\n\n" % render(e) if rng.random() < 0.85 else ""
         files[name] = hdr + "package main\n\nfunc init() { reg = append(reg, \"%s\") }\n" % name
+    # discriminators: every supplied tag as a whole must count, its fragments must not (unless supplied themselves)
+    import re as _re
+    k = 100
+    for t in tags:
+        files["d%d.go" % k] = "//go:build %s\n\npackage main\n\nfunc init() { reg = append(reg, \"d%d.go\") }\n" % (t, k)
+        k += 1
+        for frag in _re.split(r"[^0-9A-Za-z_]+", t):
+            if frag and frag != t and not frag[0].isdigit():
+                files["d%d.go" % k] = "//go:build %s\n\npackage main\n\nfunc init() { reg = append(reg, \"d%d.go\") }\n" % (frag, k)
+                k += 1
     return files, tags
 
 
